@@ -18,6 +18,8 @@ only if every configured mock was generated and written.
    each must exit 0, not panic, and mock every declaration the contract marks as a package-level interface.
    The schema-rejected-data class is injected at each level WHILE the other levels carry conforming data for the
    same key, including values of another JSON type that print the same (false / "false", "1" / 1).
+   spec/PipelineConflict.tla enumerates pairs of mocks that land in one output file with pkgname / template written at any
+   of the four levels; the contract resolves the levels and decides conflict (non-zero exit) or not (exit 0, both written).
 4. Every hook trace is validated by TLC against spec/PipelineTrace.tla, and the complete event stream of a sample (quick)
    / of all runs (thorough) against the root spec/MockeryTrace.tla.
 
@@ -49,9 +51,17 @@ COVERAGE TABLE (statement / quantifier dimension -> explored by -> still a singl
                                 templates; custom schema (C10 worlds)
   conflicting output file       source packages (also same NAME + same interface name), pkgname (also case only), template
                                 (also two custom URLs); root / package resp. interface / entry level; the valid look-alikes
-  never a panic: Go source      58 declaration kinds (local / alias / generic / build-tag / generated-header / //line
-                                families, go1.23 range-over-func) x 3 selection modes, sequences, 300 interfaces in one
-                                file, 150 files, 40 packages                       -> sampled, not arbitrary programs
+                                TWO MOCKS IN ONE FILE as a resolution problem (spec/PipelineConflict.tla): two configs entries of
+                                one interface / two interfaces of one package / interfaces of two packages x pkgname / template x
+                                the value (unset / a / b) at each of the four levels for each mock (most specific wins, documented
+                                default) x same / different struct name x the level that carries dir + filename; conflict-free
+                                look-alikes must exit 0 with both mocks written   -> sampled per (relation, parameter, deciding
+                                level pair, differs?) stratum; three mocks in one file absent
+  never a panic: Go source      73 declaration kinds (local / alias / generic / build-tag / generated-header / //line
+                                families, go1.23 range-over-func, RECURSIVE TYPE SHAPES: self- and mutually-referential
+                                type-parameter constraints, recursive named types in signatures, self-referential interfaces)
+                                x 3 selection modes, sequences, 300 interfaces in one file, 150 files, 40 packages; a crash is a
+                                panic, a runtime fatal error or death by signal    -> sampled, not arbitrary programs
   never a panic: go.mod         10 module-line spellings, 17 nested go.mod shapes in the output directory, module's own
                                 go.mod without module directive                    -> absent: go.work in effect, vendor/
   exit 0 only if all written    every run: configured mocks present (struct, and for same-name packages the own method);
@@ -115,6 +125,30 @@ API = {"v1/api/api.go": "package api\n\n// Client of v1.\ntype Client interface{
 
 
 DIAG_SKIP = re.compile(r" (INF|DBG|TRC|WRN) ")
+
+
+# "never terminates by an unrecovered panic": the Go runtime ends the process by `panic:` + traceback (exit 2), by a FATAL
+# ERROR that recover() cannot stop (stack overflow, concurrent map writes, out of memory, deadlock: `fatal error:`,
+# `runtime: goroutine stack exceeds`, exit 2 + goroutine dump) or by a signal (SIGSEGV / SIGABRT / SIGKILL: negative status)
+CRASH_RE = re.compile(r"^(panic: |fatal error: |runtime: goroutine stack exceeds|runtime: out of memory|goroutine \d+ \[[a-z ,0-9]+\]:$|"
+                      r"\[signal SIG[A-Z]+|SIG[A-Z]+: |unexpected fault address)", re.M)
+
+
+def crashed(r):
+    """how the process crashed (None: it did not); a harness timeout is not a crash"""
+    if r.timed_out:
+        return None
+    txt = r.err + "\n" + r.out
+    m = CRASH_RE.search(txt)
+    if m:
+        return "fatal-error" if m.group(1).startswith(("fatal error", "runtime:")) else "panic" if m.group(1).startswith("panic") else "runtime-traceback"
+    if r.panicked:
+        return "panic"
+    if r.code is not None and r.code < 0:
+        return f"signal-{-r.code}"
+    if r.code not in (0, 1) and re.search(r"^goroutine \d+ \[", txt, re.M):
+        return "runtime-traceback"
+    return None
 
 
 def has_diagnostic(r):
@@ -415,8 +449,8 @@ def replay_input(ctx, item, runs, runlock):
     sig0 = {"class": fl["class"], "level": fl["level"], "pos": fl["pos"], "ctx": fl["ctx"], "feature": fl.get("feature", "-")}
     detail = {"case": case, "choices": ch, "config": conf, "run": r.brief()}
     out = []
-    if r.panicked:
-        out.append((dict(sig0, kind="panic"), detail))
+    if crashed(r):
+        out.append((dict(sig0, kind="panic", how=crashed(r)), detail))
     if modfiles:
         for n, b in modfiles.items():
             if not (d / n).is_file() or (d / n).read_bytes() != b:
@@ -688,6 +722,40 @@ def decl_text(kind, i):
         txt = f"type {T} = GenStruct[int]"
     elif kind == "defined-over-struct-inst":
         txt = f"type {T} GenStruct[int]"
+    # ---- recursive type shapes: constraints in terms of the constrained parameter, recursive named types, self-referential interfaces
+    elif kind == "rec-constraint-named":
+        txt, mock = (f"type Lesser{i}[T any] interface{{ Less(other T) bool }}\n\n"
+                     f"type {T}[T Lesser{i}[T]] interface {{\n\tInsert(v T) bool\n\tMin() (T, bool)\n}}"), T
+    elif kind == "rec-constraint-inline":
+        txt, mock = f"type {T}[T interface{{ Less(T) bool }}] interface{{ Sort(items []T) []T }}", T
+    elif kind == "rec-constraint-mutual":
+        txt, mock = f"type Ord{i}[X any] interface{{ Cmp(X) int }}\n\ntype {T}[K Ord{i}[V], V Ord{i}[K]] interface{{ Pair(k K, v V) bool }}", T
+    elif kind == "rec-constraint-pointer-core":
+        txt, mock = f"type {T}[E any, PE interface {{\n\t*E\n\tSet(string)\n}}] interface{{ New() PE }}", T
+    elif kind == "rec-constraint-embedded-comparable":
+        txt, mock = (f"type Cmp{i}[T any] interface {{\n\tcomparable\n\tLess(T) bool\n}}\n\n"
+                     f"type {T}[T Cmp{i}[T]] interface{{ Max(a, b T) T }}"), T
+    elif kind == "rec-constraint-slice-elem":
+        txt, mock = f"type {T}[S ~[]E, E interface{{ Less(E) bool }}] interface{{ Sort(s S) S }}", T
+    elif kind == "rec-named-slice-in-sig":
+        txt, mock = f"type Rec{i} []Rec{i}\n\ntype {T} interface{{ M(r Rec{i}) Rec{i} }}", T
+    elif kind == "rec-struct-in-sig":
+        txt, mock = f"type N{i} struct {{\n\tnext *N{i}\n\tkids []N{i}\n}}\n\ntype {T} interface{{ Walk(n *N{i}) N{i} }}", T
+    elif kind == "rec-functype-in-sig":
+        txt, mock = f"type Fn{i} func(Fn{i}) Fn{i}\n\ntype {T} interface{{ M(f Fn{i}) Fn{i} }}", T
+    elif kind == "rec-map-chan-in-sig":
+        txt, mock = f"type Mp{i} map[string]Mp{i}\n\ntype Ch{i} chan Ch{i}\n\ntype {T} interface{{ M(m Mp{i}, c Ch{i}) }}", T
+    elif kind == "rec-generic-struct-in-sig":
+        txt, mock = (f"type Gs{i}[T any] struct {{\n\tnext *Gs{i}[T]\n\tm    map[string]Gs{i}[T]\n}}\n\n"
+                     f"type {T}[T any] interface{{ Walk(g Gs{i}[T]) *Gs{i}[T] }}"), T
+    elif kind == "rec-iface-self-method":
+        txt, mock = f"type {T} interface {{\n\tNext() {T}\n\tChildren() []{T}\n\tVisit(func({T}) bool)\n}}", T
+    elif kind == "rec-iface-mutual":
+        txt, mock = f"type {T} interface{{ Other() Ot{i} }}\n\ntype Ot{i} interface{{ Back() {T} }}", T
+    elif kind == "rec-generic-self-instance":
+        txt, mock = f"type {T}[X any] interface {{\n\tSub() {T}[X]\n\tWrap() []{T}[X]\n}}", T
+    elif kind == "rec-iface-embeds-generic-of-self":
+        txt, mock = f"type Nd{i}[T any] interface{{ Children() []T }}\n\ntype {T} interface{{ Nd{i}[{T}] }}", T
     else:
         raise MachineryError("PipelineValid.tla has a declaration kind the harness cannot concretise: " + kind)
     return txt, extra, imports, mock
@@ -985,8 +1053,9 @@ def replay_valid(ctx, item, runs, runlock):
     detail = {"case": case, "config": conf if len(str(conf)) < 5000 else str(conf)[:5000], "args": list(args), "run": r.brief(),
               "decls_go": files.get("ps/decls.go")}
     out = []
-    if r.panicked:
-        out.append((dict(sig0, kind="panic", decl=next((k for k in kinds if k.startswith(("local", "alias", "defined")) or "shadow" in k), kinds[0] if kinds else "-")), detail))
+    if crashed(r):
+        out.append((dict(sig0, kind="panic", how=crashed(r), has_recursive=bool(case.get("has_recursive")),
+                         decl=next((k for k in kinds if k.startswith(("local", "alias", "defined", "rec-")) or "shadow" in k), kinds[0] if kinds else "-")), detail))
     if r.code == 0 and exp["exit"] == "nonzero":
         out.append((dict(sig0, kind="exit-status", expected="nonzero", got="zero"), detail))
     if r.code != 0 and exp["exit"] == "zero":
@@ -1008,6 +1077,93 @@ def replay_valid(ctx, item, runs, runlock):
         shutil.rmtree(d, ignore_errors=True)
     return out, {"id": item["id"], "world": {k: w[k] for k in ("kind", "decls", "select", "spelling", "layout", "shape", "ctx")},
                  "exit": r.code, "mocks_expected": [e[1] for e in expected]}
+
+
+# ------------------------------------------------------------------------------------------------ two mocks, one output file
+CVAL = {"pkgname": {"a": "mocks", "b": "otherpkg"}, "template": {"a": "testify", "b": "matryer"}}
+
+
+def build_conflict(case):
+    """PipelineConflict.tla world -> files, config, [(relpath, struct)] of the two mocks"""
+    w = case["world"]
+    rel, param, a, loc, struct = w["rel"], w["param"], w["a"], w["loc"], w["struct"]
+    files = base_files()
+    conf = {"packages": {}}
+    # mock m -> (package, interface, index of its configs entry)
+    mocks = {"same-iface": [("pa", "A1", 0), ("pa", "A1", 1)], "same-pkg": [("pa", "A1", 0), ("pa", "A2", 0)],
+             "cross-pkg": [("pa", "A1", 0), ("pb", "B1", 0)]}[rel]
+    nentries = 2 if rel == "same-iface" else 1
+
+    def node(m, level, create=True):
+        p, n, k = mocks[m]
+        if level == "root":
+            return conf
+        pc = conf["packages"].setdefault(f"{MOD}/{p}", {"interfaces": {}})
+        if level == "pkg":
+            return pc.setdefault("config", {})
+        ic = pc["interfaces"].setdefault(n, {})
+        if level == "iface":
+            return ic.setdefault("config", {})
+        es = ic.setdefault("configs", [{} for _ in range(nentries)])
+        return es[k]
+
+    for m in (0, 1):
+        p, n, k = mocks[m]
+        conf["packages"].setdefault(f"{MOD}/{p}", {"interfaces": {}})["interfaces"].setdefault(n, {})
+        if rel == "same-iface":
+            node(m, "entry")                     # two configs entries = two mocks of the one interface
+        for level in ("root", "pkg", "iface", "entry"):
+            v = a[m][level]
+            if v != "unset":
+                node(m, level)[param] = CVAL[param][v]
+        node(m, loc).update({"dir": "mocks/shared", "filename": "mocks.go"})
+    if struct == "same":
+        if rel != "same-iface":                  # (two entries of one interface share the default struct name)
+            conf["structname"] = "MockShared"
+        names = ["MockShared" if rel != "same-iface" else "MockA1"] * 2
+    elif rel == "same-iface":
+        names = ["MockOne", "MockTwo"]
+        for m in (0, 1):
+            node(m, "entry")["structname"] = names[m]
+    else:
+        names = ["Mock" + mocks[m][1] for m in (0, 1)]
+    return files, conf, [("mocks/shared/mocks.go", nm) for nm in names]
+
+
+def replay_conflict(ctx, item, runs, runlock):
+    case = item["case"]
+    w, exp = case["world"], case["expect"]
+    d = newdir(ctx, "x")
+    files, conf, mocks = build_conflict(case)
+    materialise(d, files, conf)
+    r = pipetrace.run(ctx, d)
+    with runlock:
+        runs.append((r, item["id"]))
+    if r.timed_out:
+        raise MachineryError(f"mockery timed out on conflict world {item['id']}")
+    sig0 = {"world": "conflict", "rel": w["rel"], "param": w["param"], "struct": w["struct"], "loc": w["loc"],
+            "src": "/".join(exp["src"]), "conflict": "+".join(sorted(exp["conflict"])) or "-"}
+    detail = {"case": case, "config": conf, "run": r.brief()}
+    out = []
+    if crashed(r):
+        out.append((dict(sig0, kind="panic", how=crashed(r)), detail))
+    got = "zero" if r.code == 0 else "nonzero"
+    if exp["exit"] != "any" and got != exp["exit"]:
+        out.append((dict(sig0, kind="exit-status", expected=exp["exit"], got=got), detail))
+    if r.code != 0 and not has_diagnostic(r):
+        out.append((dict(sig0, kind="no-diagnostic"), detail))
+    if r.code == 0:
+        # exit 0 only if every configured mock was written (also where the exit status itself is left open)
+        for m in (exp["written"] if exp["exit"] == "zero" else [1, 2]):
+            rel_, st = mocks[m - 1]
+            p = d / rel_
+            if not (p.is_file() and re.search(r"\btype\s+" + re.escape(st) + r"\b", p.read_text(errors="replace"))):
+                out.append((dict(sig0, kind="exit-zero-but-mock-not-written"), dict(detail, missing_mock=[rel_, st])))
+                break
+    if not out and not os.environ.get("VERIF_KEEP"):
+        shutil.rmtree(d, ignore_errors=True)
+    return out, {"id": item["id"], "world": {k: w[k] for k in ("rel", "param", "struct", "loc")}, "levels_in_effect": exp["src"],
+                 "conflict": exp["conflict"], "expected": exp["exit"], "exit": r.code}
 
 
 # ------------------------------------------------------------------------------------------------ main
@@ -1037,6 +1193,8 @@ def run(ctx):
     t_mc = bg("mc", "PipelineMC", cfg, workers=1, timeout=1800, count=False, coverage=thorough)
     t_v = bg("valid", "PipelineValid", "PipelineValid_thorough.cfg" if thorough else "PipelineValid_quick.cfg",
              workers=1, timeout=900, count=False)
+    t_x = bg("conflict", "PipelineConflict", "PipelineConflict_thorough.cfg" if thorough else "PipelineConflict_quick.cfg",
+             workers=1, timeout=900, count=False, seed=ctx.seed)
     ctx.mockery()
     r_mc = joined(t_mc, "mc")
     if not r_mc.ok:
@@ -1053,8 +1211,17 @@ def run(ctx):
         if k not in seen:
             seen.add(k)
             vcases.append(c)
-    ctx.cov["states"] += r_mc.distinct + r_v.distinct
-    ctx.cov["transitions"] += r_mc.generated + r_v.generated
+    r_x = joined(t_x, "conflict")
+    if not r_x.ok:
+        raise MachineryError(f"TLC failed on PipelineConflict ({r_x.violated}):\n" + r_x.tail())
+    xcases, xseen = [], set()
+    for c in r_x.prints("XCASE"):
+        k = json.dumps(c["world"], sort_keys=True)
+        if k not in xseen:
+            xseen.add(k)
+            xcases.append(c)
+    ctx.cov["states"] += r_mc.distinct + r_v.distinct + r_x.distinct
+    ctx.cov["transitions"] += r_mc.generated + r_v.generated + r_x.generated
 
     # ---- vacuity guards on the exports
     classes = {c["world"]["fault"]["class"] for c in cases}
@@ -1082,15 +1249,35 @@ def run(ctx):
     if not any(c["world"]["kind"] == "cfgshape" for c in vcases) or len(vk) < 50 or not any(c.get("has_alias") and c["world"]["select"] == "none" for c in vcases) or not any(c["world"]["kind"] == "gomod" for c in vcases) or not any(c["world"]["kind"] == "pkgshape" for c in vcases):
         raise MachineryError("vacuous: PipelineValid exported too few kinds of valid worlds")
 
+    if len({k for c in vcases if c.get("has_recursive") for k in c["world"]["decls"] if k.startswith("rec-")}) < 12:
+        raise MachineryError("vacuous: PipelineValid exported too few recursive type shapes")
+    # two mocks in one file: every relation x parameter with a conflict, without one, with the same struct name (two configs
+    # entries of one interface that differ only in pkgname / template), and with the deciding value at every level
+    for rel_ in ("same-iface", "same-pkg", "cross-pkg"):
+        for par_ in ("pkgname", "template"):
+            mine = [c for c in xcases if c["world"]["rel"] == rel_ and c["world"]["param"] == par_]
+            if not any(par_ in c["expect"]["conflict"] and (c["world"]["struct"] == "same" or rel_ != "same-iface") for c in mine) or \
+                    not any(par_ in c["expect"]["conflict"] and (c["world"]["struct"] == "diff" or rel_ != "same-iface") for c in mine) or \
+                    (rel_ != "cross-pkg" and not any(c["expect"]["exit"] == "zero" for c in mine)) or \
+                    (rel_ == "cross-pkg" and not any(c["expect"]["conflict"] == ["srcpkg"] for c in mine)):
+                raise MachineryError(f"vacuous: PipelineConflict exported no conflict / no conflict-free look-alike for {rel_} x {par_}")
+    if {s_ for c in xcases for s_ in c["expect"]["src"]} != {"default", "root", "pkg", "iface", "entry"} or \
+            any((c["expect"]["exit"] == "nonzero") != bool(c["expect"]["conflict"]) for c in xcases):
+        raise MachineryError("contract export broken: PipelineConflict must decide every level and fail exactly the conflicts")
+
     # ---- replay
     runs, runlock = [], threading.Lock()
     if getattr(ctx, "replay", None):
         det = json.loads(open(ctx.replay).read())["detail"]
+        xitems = []
         if "choices" in det:
             items, vitems = [{"id": "replay", "case": det["case"], "choices": det["choices"]}], []
+        elif det["case"]["world"].get("kind") == "conflict":
+            items, vitems, xitems = [], [], [{"id": "replay", "case": det["case"]}]
         else:
             items, vitems = [], [{"id": "replay", "case": det["case"]}]
     else:
+        xitems = [{"id": f"x{i}", "case": c} for i, c in enumerate(xcases)]
         reps = 4 if thorough else 2     # concretisation variants per world (4 exist; quick takes v and v+2)
         items = []
         for i, c in enumerate(cases):
@@ -1108,8 +1295,14 @@ def run(ctx):
     t0 = time.time()
     results = pipetrace.pmap(lambda it: replay_input(ctx, it, runs, runlock), items, workers=10)
     vresults = pipetrace.pmap(lambda it: replay_valid(ctx, it, runs, runlock), vitems, workers=10)
+    xresults = pipetrace.pmap(lambda it: replay_conflict(ctx, it, runs, runlock), xitems, workers=10)
     replay_wall = time.time() - t0
     summaries, vsummaries = [], []
+    xsummaries = []
+    for viols, s in xresults:
+        xsummaries.append(s)
+        for sig, detail in viols:
+            ctx.violation(sig, detail)
     for viols, s in results:
         summaries.append(s)
         for sig, detail in viols:
@@ -1118,7 +1311,7 @@ def run(ctx):
         vsummaries.append(s)
         for sig, detail in viols:
             ctx.violation(sig, detail)
-    ctx.cov["evaluations"] += len(items) + len(vitems)
+    ctx.cov["evaluations"] += len(items) + len(vitems) + len(xitems)
 
     # ---- the code-shaped model's prediction for what was observed (drift only)
     pred = {}
@@ -1177,15 +1370,23 @@ def run(ctx):
     ctx.cov["invalid_input_runs_by_class"] = {k: {"runs": v[0], "nonzero_exit": v[1]} for k, v in sorted(by_class.items())}
     ctx.cov["valid_unusual_worlds"] = {"total": len(vsummaries), "exit_zero": sum(1 for s in vsummaries if s["exit"] == 0),
                                        "declaration_kinds": len(vk)}
+    ctx.cov["one_file_two_mocks_worlds"] = {"total": len(xsummaries), "expected_nonzero": sum(1 for s in xsummaries if s["expected"] == "nonzero"),
+                                            "expected_zero": sum(1 for s in xsummaries if s["expected"] == "zero"),
+                                            "exit_nonzero": sum(1 for s in xsummaries if s["exit"] != 0),
+                                            "level_pairs": len({(s["world"]["rel"], tuple(s["levels_in_effect"])) for s in xsummaries})}
     ctx.cov["distinct_nontrivial"] = len({json.dumps(s["fault"], sort_keys=True) for s in summaries if s["fault"]["class"] != "-"}) + \
-        len({json.dumps(s["world"], sort_keys=True) for s in vsummaries})
+        len({json.dumps(s["world"], sort_keys=True) for s in vsummaries}) + \
+        len({json.dumps([s["world"], s["levels_in_effect"], s["conflict"]], sort_keys=True) for s in xsummaries})
     ctx.cov["rule"] = ("invalid-input worlds = class x level x first/last package x alone/among (two of the four concretisation variants each; "
                        "thorough: all four, and also with occupied output paths); valid worlds = declaration-kind sequences (exhaustive up "
-                       "to MaxLen + random longer ones), go.mod spellings x layout, package shapes x alone/among")
+                       "to MaxLen + random longer ones), go.mod spellings x layout, package shapes x alone/among; one-file-two-mocks worlds = relation x "
+                       "parameter x deciding-level pair x differs? (one assignment per stratum; thorough: four, every dir/filename level, both struct modes)")
     ctx.cov["replay_wall_s"] = round(replay_wall, 1)
     for s in summaries[:1] + [s for s in summaries if s["fault"]["class"] in ("cyclic", "conflict-template", "pkg-missing-all")][:3]:
         ctx.sample(s)
-    for s in [s for s in vsummaries if len(s["world"]["decls"]) >= 3][:2]:
+    for s in [s for s in vsummaries if len(s["world"]["decls"]) >= 3][:1]:
+        ctx.sample(s)
+    for s in [s for s in xsummaries if s["world"]["rel"] == "same-iface" and s["conflict"]][:1]:
         ctx.sample(s)
     ctx.assumptions += [
         "one fault class at a time (the statement lists classes; combinations are 'alone' or 'among valid packages'), except that a "
@@ -1196,6 +1397,14 @@ def run(ctx):
         "conflicting requirements for one output file: different source package PATHS (also when the package names and the interface "
         "names coincide), pkgnames that differ as strings after templating (also only in case), template values that differ as strings; "
         "equal-after-templating pkgnames and the same URL twice are valid worlds; one file reached by two spellings of its URL is not judged",
+        "two mocks in one output file (PipelineConflict.tla): two configs entries of one interface / two interfaces of a package / interfaces "
+        "of two packages; pkgname resp. template written at any subset of the four levels for each mock (shared levels hold one value), the "
+        "most specific level wins, unset everywhere = the documented default (testify; the source package's name); effective values differ or "
+        "source packages differ => non-zero exit; equal requirements with distinct struct names => exit 0 and both mocks written; equal "
+        "requirements with the SAME struct name (duplicate declaration) is left open; quick: one assignment per (relation, parameter, "
+        "deciding-level pair, differs?) stratum and one level for dir/filename drawn at random",
+        "a crash is `panic:`, a Go runtime fatal error (`fatal error:`, `runtime: goroutine stack exceeds`, goroutine dump with exit status "
+        "other than 0/1) or death by signal; a harness timeout is not counted as one",
         "go.mod: the destination's governing go.mod may be a nested one; without a module directive (empty, comment-only, only go / toolchain / "
         "require / replace / exclude / retract, BOM) the run must fail with a diagnostic and never panic, with one (anywhere in the file) it succeeds",
         "an invalid regular expression is only required to fail where the expression is in effect (all: false / include set / recursive with a sub-package)",
